@@ -111,3 +111,43 @@ Proof.
   split; [vm_compute; reflexivity|]. split; [exact w_ok_reach|].
   split; [vm_compute; reflexivity|]. split; vm_compute; reflexivity.
 Qed.
+
+(* a program with break/continue inside the guard lower_ok:
+   x = 10
+   while cond():
+       try:
+           x = 1; g(); break
+       except Exception:
+           x = 2; continue
+   else:
+       use(x)           # use 7: strict {10, 2}
+   use(x)               # use 8: strict {10, 1, 2} *)
+Definition w_brk : block :=
+  blk [SAssign 1 10;
+       SLoop false (blk [STry (blk [SAssign 1 1; SCall; SBreak]) (HCons (blk [SAssign 1 2; SContinue]) HNil) BNil BNil])
+                   (blk [SUse 1 7]);
+       SUse 1 8].
+
+Lemma w_brk_reach : strict_reach w_brk 8 1.
+Proof.
+  exists ([(1, 10)] ++ ([] ++ ([(1, 1)] ++ [] ++ []) ++ []) ++ []), 1. split; [|reflexivity].
+  cbn [w_brk blk upath_b]. right. exists [(1, 10)], (([] ++ ([(1, 1)] ++ [] ++ []) ++ []) ++ []).
+  split; [cbn; auto|]. split; [|reflexivity].
+  right. exists ([] ++ ([(1, 1)] ++ [] ++ []) ++ []), []. split; [|split; [left; cbn; auto|reflexivity]].
+  cbn [path_s]. exists [], (([(1, 1)] ++ [] ++ []) ++ []). split; [constructor|]. split; [reflexivity|].
+  right. left. split; [reflexivity|].
+  cbn [path_b]. right. split; [discriminate|].
+  cbn [path_s]. exists OBrk, ([(1, 1)] ++ [] ++ []), ONorm, []. split; [|split; [cbn; auto|split; reflexivity]].
+  right. left. split; [left; reflexivity|].
+  cbn [path_b]. left. exists [(1, 1)], ([] ++ []). split; [cbn; auto|]. split; [|reflexivity].
+  left. exists [], []. split; [cbn; auto|]. split; [|reflexivity].
+  right. split; [discriminate|]. cbn. auto.
+Qed.
+
+Lemma w_brk_facts :
+  lower_ok w_brk = true /\ has_jump_b w_brk = true /\ strict_reach w_brk 8 1 /\
+  reported w_brk 8 = [10; 1; 2] /\ reported w_brk 7 = [10; 1; 2].
+Proof.
+  split; [vm_compute; reflexivity|]. split; [vm_compute; reflexivity|]. split; [exact w_brk_reach|].
+  split; vm_compute; reflexivity.
+Qed.
